@@ -3,6 +3,14 @@ package gvc
 // SSA scans realising the F3 (effects) and F8 (census) obligation families. Each scan yields
 // named obligations with status discharged / refuted, accounted like SMT obligations.
 
+import (
+	"fmt"
+	"strings"
+
+	"golang.org/x/tools/go/ssa"
+	"golang.org/x/tools/go/ssa/ssautil"
+)
+
 type ScanSpec struct {
 	Kind string            `json:"kind"`
 	Name string            `json:"name"`
@@ -18,3 +26,113 @@ func RunScan(P *Program, sp ScanSpec) []*OblResult {
 }
 
 var scanKinds = map[string]func(P *Program, sp ScanSpec) []*OblResult{}
+
+func scanResult(name, family string, ok bool, detail string) *OblResult {
+	r := &OblResult{Name: "scan." + name, Family: family, Func: "scan." + name, Paths: 1, Backend: "ssa-scan", Output: detail}
+	if ok {
+		r.Status = "discharged"
+	} else {
+		r.Status = "refuted"
+		r.Model = detail
+	}
+	return r
+}
+
+func init() {
+	scanKinds["global_const_slice"] = scanGlobalConstSlice
+}
+
+func (P *Program) ssaPkg(rel string) *ssa.Package {
+	for _, p := range P.SSA.AllPackages() {
+		if p.Pkg.Path() == ModPath+"/"+rel || p.Pkg.Path() == rel {
+			return p
+		}
+	}
+	return nil
+}
+
+// global_const_slice: the package variable Args[name] of package Args[pkg] is assigned exactly once,
+// in the package initialiser, from a slice literal whose elements are exactly the constants in List.
+// This validates `requires` clauses that state the contents of such a variable.
+func scanGlobalConstSlice(P *Program, sp ScanSpec) []*OblResult {
+	pkg := P.ssaPkg(sp.Args["pkg"])
+	if pkg == nil {
+		return []*OblResult{scanResult(sp.Name, "F8", false, "package not loaded: "+sp.Args["pkg"])}
+	}
+	g, ok := pkg.Members[sp.Args["name"]].(*ssa.Global)
+	if !ok {
+		return []*OblResult{scanResult(sp.Name, "F8", false, "no such package variable: "+sp.Args["name"])}
+	}
+	var stores []*ssa.Store
+	var where []string
+	for fn := range ssautil.AllFunctions(P.SSA) {
+		if fn.Pkg != pkg && (fn.Parent() == nil || fn.Parent().Pkg != pkg) {
+			continue
+		}
+		for _, b := range fn.Blocks {
+			for _, in := range b.Instrs {
+				if s, ok := in.(*ssa.Store); ok {
+					if rootGlobal(s.Addr) == g {
+						stores = append(stores, s)
+						where = append(where, CanonName(fn))
+					}
+				}
+			}
+		}
+	}
+	if len(stores) != 1 || !strings.HasSuffix(where[0], ".init") {
+		return []*OblResult{scanResult(sp.Name, "F8", false, fmt.Sprintf("variable %s is written at %v (want exactly one store, in init)", sp.Args["name"], where))}
+	}
+	// the stored value: slice of a fresh array whose cells are stored constants
+	sl, ok := stores[0].Val.(*ssa.Slice)
+	if !ok {
+		return []*OblResult{scanResult(sp.Name, "F8", false, "initialiser is not a slice literal")}
+	}
+	arr, ok := sl.X.(*ssa.Alloc)
+	if !ok {
+		return []*OblResult{scanResult(sp.Name, "F8", false, "initialiser is not a slice literal over a fresh array")}
+	}
+	vals := map[int64]string{}
+	for _, r := range *arr.Referrers() {
+		ia, ok := r.(*ssa.IndexAddr)
+		if !ok {
+			continue
+		}
+		idx, ok := ia.Index.(*ssa.Const)
+		if !ok {
+			return []*OblResult{scanResult(sp.Name, "F8", false, "non-constant index in initialiser")}
+		}
+		for _, rr := range *ia.Referrers() {
+			if st, ok := rr.(*ssa.Store); ok {
+				c, ok := st.Val.(*ssa.Const)
+				if !ok || c.Value == nil {
+					return []*OblResult{scanResult(sp.Name, "F8", false, "non-constant element in initialiser")}
+				}
+				vals[idx.Int64()] = c.Value.ExactString()
+			}
+		}
+	}
+	var got []string
+	for i := int64(0); i < int64(len(vals)); i++ {
+		got = append(got, vals[i])
+	}
+	if strings.Join(got, ",") != strings.Join(sp.List, ",") {
+		return []*OblResult{scanResult(sp.Name, "F8", false, fmt.Sprintf("%s = [%s], contract requires [%s]", sp.Args["name"], strings.Join(got, ","), strings.Join(sp.List, ",")))}
+	}
+	return []*OblResult{scanResult(sp.Name, "F8", true, fmt.Sprintf("%s = [%s], single store in init", sp.Args["name"], strings.Join(got, ",")))}
+}
+
+func rootGlobal(v ssa.Value) *ssa.Global {
+	for {
+		switch a := v.(type) {
+		case *ssa.Global:
+			return a
+		case *ssa.FieldAddr:
+			v = a.X
+		case *ssa.IndexAddr:
+			v = a.X
+		default:
+			return nil
+		}
+	}
+}
